@@ -115,13 +115,16 @@ def initial_for(ftype, token, palette=None):
     if token in (NONE, None):
         return None
     palette = palette or {}
+    # the same token means the same value whatever the column type is at that moment
+    # ('7' and 7 are equal modulo column affinity), so that a sequence that re-types a
+    # column between two fills is judged on the token, like the specification does
     if token == 'j':                     # a second, different initial value
         if ftype in ('Char', 'Text'):
-            return 'other'
+            return '8'
         if ftype in ('Int', 'BigInt', 'PosInt', 'FK', 'O2O', 'Decimal'):
             return 8
     if ftype in ('Char', 'Text'):
-        return palette.get('str', 'init')
+        return palette.get('str', '7')
     if ftype in ('Int', 'BigInt', 'PosInt', 'FK', 'O2O'):
         return palette.get('int', 7)
     if ftype == 'Bool':
@@ -286,7 +289,7 @@ def index_cond(attrs, names):
 def _init_token(initial):
     if initial is None:
         return NONE
-    return 'j' if initial in (8, 'other') and initial is not True else 'i'
+    return 'j' if initial in (8, '8') and initial is not True else 'i'
 
 
 def project_mutation(m, names):
